@@ -1,7 +1,11 @@
 CONSTANTS
-  Shapes <- Shapes22
-  ESet <- Two
-  RSet <- One
+  ESet <- OneTwo
+  Shapes1 <- Shapes33
+  Shapes2 <- Shapes22
+  Shapes3 <- Shapes22
+  RSet1 <- OneTwo
+  RSet2 <- One
+  RSet3 <- One
   KeyMode = "before"
   WalkMode = "reverse"
 SPECIFICATION Spec
